@@ -76,6 +76,7 @@ def run(ctx, n_write=None, n_mut=None, partial=False, writer_like=True, fail_pre
     for d, (st, val) in zip(muts, res):
         if st != "ok" or val == "memory":
             ctx.count("hdr.mut-impl-blowup", st if st != "ok" else "memory")
+            ctx.blowups = getattr(ctx, "blowups", []) + [(st if st != "ok" else "memory", d.hex())]
             continue
         ml.append("hdr.r " + (d.hex() or "-"))
         mo.append(val)
